@@ -327,12 +327,15 @@ readLoop:
 			} else if err != nil {
 				// If we got here, the error might have been produced while attempting
 				// to wrap the connection, which means received and the connection
-				// may no longer be valid. We should just give up on this connection.
+				// may no longer be valid. We should just give up on this connection,
+				// but like any other connection that did not authenticate it is read
+				// from (and not closed) until the deadline.
 				d := time.Until(deadline)
-				logger.Warnf("got unexpected error from transport %s, sleeping %v then giving up: %v\n", t.Name(), d, err)
+				logger.Warnf("got unexpected error from transport %s, reading for %v then giving up: %v\n", t.Name(), d, err)
 				cj.Stat().ConnErr()
 				cm.checkToError(asn, cc, isIPv4)
-				time.Sleep(d)
+				_, _ = io.Copy(io.Discard, clientConn)
+				time.Sleep(time.Until(deadline))
 				return
 			}
 
